@@ -567,3 +567,9 @@ H("C01", "client", "c01_client_s_to_k", timeout=3600, oracle_features=["cap192",
 H("C01", "srp_internal", "c01_server_s_to_k", timeout=3600, oracle_features=["cap128", "q16", "b8"], encodes=["calculate_session_key", "calculate_S", "calculate_interleaved"],
   inputs="A, B valid, v, b any; u uninterpreted", asserts="server K == SHA_Interleave(pad32((A * v^u)^b mod N)) for every non-zero S",
   bounds="real S computation and real interleave in one harness", assumes=[HASH_ASSUME, BIG_ASSUME])
+
+for _pre, _mod, _ps in [("c07", "vanilla_header", [0, 23]), ("c08", "tbc_header", [0, 11])]:
+    for _p in _ps:
+        H(_pre.upper(), _mod, "%s_call_long_p%d" % (_pre, _p), timeout=3600, tiers=["thorough"],
+          encodes=["%s::encrypt::encrypt" % _mod, "%s::decrypt::decrypt" % _mod], inputs="key, previous, data [u8;260]: any; index = %d; n = 260" % _p,
+          asserts="one 260-byte call equals 260 spec steps on both halves incl. the final position", bounds="n = 260 exactly, starting position %d; unwind 262" % _p, assumes=[])
